@@ -26,7 +26,7 @@ CLAIMED = {
             "Judges 'error or usable value, never panic': every accepted value is used (String, Equal, Clone, Add, Mul, Neg, Sub, Data, re-encode/re-decode), and accepted points must satisfy the independent curve equation / subgroup test. Parsers (Schnorr, EdDSA, BLS, TBLS, BDN, CoSi, proofs, shuffles, ECIES, anon, VSS deals incl. deals sealed through the real encryption path) are fed mutated valid messages.",
             "math/big curve models (Ed25519, P-256, BN G1, BN twist, BLS12-381 G1); q*P=O through the group's own arithmetic for BLS12-381 G2 and BN254 G2; recover() catches panics, the driver attributes process-fatal errors to the journaled input."),
     "C20": ("exploration",
-            "Go race detector (-race build, GORACE log parsed and deduplicated by kyber entry-point pair) over 16 goroutines running the read-only method set on shared non-normalised objects of 26 kinds, plus comparison of every concurrent result with the sequential run",
+            "Go race detector (-race build, GORACE log parsed and deduplicated by kyber entry-point pair) over 16 goroutines running the read-only method set on shared non-normalised objects of 28 kinds (incl. suites with custom DSTs, streams over several sources, shared unordered share lists), plus comparison of every concurrent result with the sequential run",
             "Shared points/scalars of all 20 groups, pairing operands and GT elements of the 5 suites, shared keys/proofs/polynomials/masks/rings/random streams for the signature, proof, PVSS, ECIES and anon schemes are used concurrently for reading only; objects are rebuilt for every repetition so lazily normalising reads are hit from their first call; the hot path contains no synchronisation of the harness's own.",
             "happens-before race detection covers only accesses that occurred in the run; assembly is not instrumented; results compared with a sequential twin built from the same seed."),
     "C03": ("exploration",
@@ -46,7 +46,7 @@ CLAIMED = {
             "Single deal faults and single response faults are enumerated exhaustively over verifier position (n=3,4; thorough to 6) and combined with every justification kind incl. two-step sequences (wrong-then-correct); multi-fault histories are sampled. After every delivered event the observer's DealCertified() is compared with the ledger: certified => >= t signed approvals or correctly justified complaints and no invalid justification ever processed; approvals only for good deals; forged/duplicate responses rejected; honest runs certify and any t certified deals recover the secret.",
             "faults are known by construction; Ed25519 suite; the verif hook seals harness-chosen plaintexts with the dealer's keys."),
     "C07": ("exploration",
-            "runtime monitor: (t,n) sweep with exhaustive subsets/orders/nil patterns/surplus/duplicates against a math/big polynomial + Lagrange reference (three cross-checked routes), 9 groups",
+            "runtime monitor: (t,n) sweep with exhaustive subsets/orders/nil patterns/surplus/duplicates against a math/big polynomial + Lagrange reference (three cross-checked routes), 9 groups; derived polynomial objects through a full battery; operands from two group objects; large thresholds",
             "RecoverSecret/RecoverCommit/RecoverPriPoly/RecoverPubPoly are judged against the dealer's coefficients kept in math/big for every subset (all sizes, n<=6 quick / <=7 thorough; structured above) in several presentations; refusal below t; Check verdicts against reference membership on honest/shifted/negated/wrong-index/foreign shares; Add/Mul against evaluation and commitment.",
             "math/big reference (power-sum evaluation, Newton divided differences, Lagrange at 0); group laws (C01) for commitments."),
     "C09": ("exploration",
@@ -66,7 +66,7 @@ CLAIMED = {
             "Ground truth from the decryption key held by the harness: the statement is true iff plaintext equality admits a perfect matching. The verifier must accept all honest proofs and reject every forged or altered one.",
             "soundness is judged on explicit cheating-prover families only; Ed25519 and P-256."),
     "C16": ("exploration",
-            "runtime monitor: ECIES / IBE-CCA / IBE-CPA / anon-set over length sweeps, keys, recipients; every ciphertext region bit-flipped or truncated, wrong keys, public-data forgeries; plaintext-in-clear scan",
+            "runtime monitor: ECIES / IBE-CCA / IBE-CPA / anon-set over length sweeps, keys, recipients; every ciphertext region bit-flipped, truncated or extended, inputs-intact and repeatable-decryption checks, wrong keys, public-data forgeries; plaintext-in-clear scan",
             "Round trip equality; lengths the scheme cannot protect must be refused at encryption; altered or truncated ciphertexts and wrong keys must yield an error for the authenticated schemes, never a different plaintext or a panic; no >= 8-byte run of a high-entropy plaintext may occur in the ciphertext.",
             "hiding is checked only in the observable form the property gives (no plaintext block in the ciphertext)."),
     "C17": ("exploration",
@@ -78,7 +78,7 @@ CLAIMED = {
             "Schnorr/EdDSA/ring signatures must verify when honest and fail for every semantically different message, key, ring, scope or signature field; on Ed25519 non-canonical R/S/A and small-order R/A must be rejected, EdDSA keys and signatures must be byte-identical to crypto/ed25519 and kyber-accept implies std-accept; linkage tags equal x*H(scope).",
             "crypto/ed25519; the math/big Ed25519 model classifies which mutations are semantic changes."),
     "C14": ("exploration",
-            "runtime monitor: random Or-of-And-of-Rep predicate trees proved through HashProve/HashVerify and through the deniable clique protocol (harness Context, k=2..5, -race in thorough); ground-truth evaluation of the claimed branch in the group; differential reference verifier on group operations for transcript mutations; witness-free forgers",
+            "runtime monitor: random Or-of-And-of-Rep predicate trees proved through HashProve/HashVerify and through the deniable clique protocol (harness Context, k=2..5, -race in thorough; aborted runs with a failing/garbling Context and a deadlock detector, multi-round and self-verifying participants, predicate objects shared between trees and groups); ground-truth evaluation of the claimed branch in the group; differential reference verifier on group operations for transcript mutations; witness-free forgers",
             "Acceptance must coincide with the truth of the claimed branch for every branch choice and every single-secret falsification; each transcript field mutation/truncation is judged by a reference verifier; proofs are checked against other points, predicates and protocol names; forgers with simulated branches, guessed or transplanted challenges must be rejected.",
             "soundness is judged on explicit cheating-prover families; Ed25519, P-256 and BN256 G1."),
     "C18": ("exploration",
@@ -86,7 +86,7 @@ CLAIMED = {
             "Point encodings must be identical after every step of every program on all implementations of a curve (scalars compared as integers), BLS12-381 back-ends must agree byte-for-byte on scalars, G1, G2, GT, Hash, Pair and BLS signatures; the verif hooks compare field ops, the three scalar multipliers and slide with math/big. Five builds of one seeded transcript (mod.Int, compatible.Int, Ed25519, CIRCL, Shamir, Schnorr/EdDSA/BLS, XOFs, random; full library for default/generic/purego) must print identical lines; a differing line with identical operands is a violation class keyed by its op.",
             "math/big models, crypto/ed25519; purego also switches gnark-crypto, CIRCL and x/crypto to pure Go, so dependency assembly is covered differentially; Pick is excluded from cross-back-end comparison (legitimately different)."),
     "C11": ("fault_enumeration",
-            "runtime monitor: Pedersen DKG through the direct API and through the goroutine Protocol driver (harness Board/Phaser with barrier ticks; -race in thorough), fresh / fast-sync / 18 resharing shapes, 37-entry Byzantine menu enumerated over every party for groups <= 4 and sampled above, per-recipient delivery permutations/duplications; Rabin DKG with the harness playing Byzantine participants (real vss Dealer/Verifiers under that participant's key, deals sealed via the verif hook, hand-signed commit messages), ~60 fault kinds enumerated for n <= 4",
+            "runtime monitor: Pedersen DKG through the direct API and through the goroutine Protocol driver (harness Board/Phaser with barrier ticks; -race in thorough), fresh / fast-sync / 18 resharing shapes, 67-entry Byzantine menu enumerated over every party for groups <= 4 and sampled above, plus coalition, threshold-gap and multi-equivocation families, per-recipient delivery permutations/duplications; Rabin DKG with the harness playing Byzantine participants (real vss Dealer/Verifiers under that participant's key, deals sealed via the verif hook, hand-signed commit messages), ~60 fault kinds enumerated for n <= 4",
             "Among honest nodes that finish: identical Commits and QUAL, every share on the polynomial, any t shares reconstruct a secret matching Commits[0] (math/big Lagrange), key = sum of QUAL contributions / unchanged after resharing, dealers with an unjustified invalid deal out of QUAL, honest dealers in QUAL, all-honest runs complete at every node (goroutine-liveness probe for WaitEnd). Violation keys carry the cause derived from the ground-truth fault ledger.",
             "Byzantine behaviour is limited to the enumerated menus; non-completion caused by a faulty participant is not judged; Ed25519 suite; VerifSnapshot hook only for evidence (distinct final status matrices)."),
 }
